@@ -23,14 +23,14 @@ func vMgrLockFree(m *Manager) bool {
 //
 //verif:props=C16,C18,C15 bounds="one manager, one TCP allocation, two Connect targets (IPv4, all ports), arbitrary 64-bit random values"
 func VerifHarness_C16_connect_twice() {
-	env := vNewManager(true, false)
-	m := env.m
-	ft := vFiveTuple()
+	env := VNewManager(true, false)
+	m := env.M
+	ft := VFiveTuple()
 	user := vStr("user")
-	a, err := m.CreateAllocation(ft, &vPacketConn{name: "turn"}, proto.ProtoTCP, 0, 600*time.Second, user, "realm", proto.RequestedFamilyIPv4)
+	a, err := m.CreateAllocation(ft, &VPacketConn{Name: "turn"}, proto.ProtoTCP, 0, 600*time.Second, user, "realm", proto.RequestedFamilyIPv4)
 	vAssume(err == nil)
-	p1 := proto.PeerAddress{IP: vIP4(), Port: vPort()}
-	p2 := proto.PeerAddress{IP: vIP4(), Port: vPort()}
+	p1 := proto.PeerAddress{IP: VIP4(), Port: VPort()}
+	p2 := proto.PeerAddress{IP: VIP4(), Port: VPort()}
 	id1, e1 := m.CreateTCPConnection(a, p1)
 	vAssert(vMgrLockFree(m), "C18.lock_released_after_connect")
 	vAssert(vMgrLockFree(m), "C16.lock_released_after_connect")
@@ -44,7 +44,7 @@ func VerifHarness_C16_connect_twice() {
 	vAssertIf(e2 == ErrDupeTCPConnection, len(a.tcpConnections) <= 1, "C16.duplicate_adds_nothing")
 	// every connection handed out by the dialer is either in the table or closed (nothing leaks)
 	inTable := 0
-	for _, c := range env.conns {
+	for _, c := range env.Conns {
 		found := false
 		for _, tc := range a.tcpConnections {
 			if tc.Conn == net.Conn(c) {
@@ -53,9 +53,9 @@ func VerifHarness_C16_connect_twice() {
 		}
 		if found {
 			inTable++
-			vAssert(c.closed == 0, "C15.live_peer_conn_is_open")
+			vAssert(c.Closed == 0, "C15.live_peer_conn_is_open")
 		} else {
-			vAssert(c.closed == 1, "C15.unregistered_peer_conn_closed_once")
+			vAssert(c.Closed == 1, "C15.unregistered_peer_conn_closed_once")
 		}
 	}
 	vAssert(inTable == len(a.tcpConnections), "C16.every_id_refers_to_a_real_connection")
@@ -66,16 +66,16 @@ func VerifHarness_C16_connect_twice() {
 
 //verif:props=C16,C15 replay=model bounds="one manager, two allocations of different users, one peer connection; all ids; bind deadline fired before/after bind"
 func VerifHarness_C16_bind_once() {
-	env := vNewManager(false, false)
-	m := env.m
+	env := VNewManager(false, false)
+	m := env.M
 	u1, u2 := vStr("u1"), vStr("u2")
-	a1, err := m.CreateAllocation(vFiveTuple(), &vPacketConn{name: "turn"}, proto.ProtoTCP, 0, 600*time.Second, u1, "realm", proto.RequestedFamilyIPv4)
+	a1, err := m.CreateAllocation(VFiveTuple(), &VPacketConn{Name: "turn"}, proto.ProtoTCP, 0, 600*time.Second, u1, "realm", proto.RequestedFamilyIPv4)
 	vAssume(err == nil)
-	ft2 := vFiveTuple()
+	ft2 := VFiveTuple()
 	vAssume(ft2.Fingerprint() != a1.fiveTuple.Fingerprint())
-	_, err = m.CreateAllocation(ft2, &vPacketConn{name: "turn2"}, proto.ProtoTCP, 0, 600*time.Second, u2, "realm", proto.RequestedFamilyIPv4)
+	_, err = m.CreateAllocation(ft2, &VPacketConn{Name: "turn2"}, proto.ProtoTCP, 0, 600*time.Second, u2, "realm", proto.RequestedFamilyIPv4)
 	vAssume(err == nil)
-	peer := proto.PeerAddress{IP: vIP4(), Port: vPort()}
+	peer := proto.PeerAddress{IP: VIP4(), Port: VPort()}
 	c0 := vClock()
 	id, e := m.CreateTCPConnection(a1, peer)
 	vAssume(e == nil)
@@ -97,11 +97,11 @@ func VerifHarness_C16_bind_once() {
 		vAssertIf(!ok, again != nil, "C16.failed_bind_does_not_consume_the_id")
 		vAssert(!vTimerArmed(tc.bindTimer), "C16.bind_stops_deadline_timer")
 		vFire(tc.bindTimer)
-		vAssert(env.conns[0].closed == 0, "C16.bound_connection_survives_deadline")
+		vAssert(env.Conns[0].Closed == 0, "C16.bound_connection_survives_deadline")
 	} else {
 		// the 30 s deadline passes first
 		vFire(tc.bindTimer)
-		vAssert(env.conns[0].closed == 1, "C16.unbound_connection_closed_at_deadline")
+		vAssert(env.Conns[0].Closed == 1, "C16.unbound_connection_closed_at_deadline")
 		vAssert(len(a1.tcpConnections) == 0, "C16.unbound_connection_removed_at_deadline")
 		vAssert(m.GetTCPConnection(u1, id) == nil, "C16.late_bind_fails")
 		vAssert(vMgrLockFree(m), "C18.lock_released_after_deadline")
@@ -114,37 +114,37 @@ func VerifHarness_C16_bind_once() {
 //
 //verif:props=C06,C15,C04,C18 replay=model bounds="all lifetimes (int64 ns > 0); UDP allocation with 2 permissions, 1 binding built by real calls; deletion by expiry or by DeleteAllocation, twice"
 func VerifHarness_C06_create_expire() {
-	env := vNewManager(false, false)
-	m := env.m
+	env := VNewManager(false, false)
+	m := env.M
 	lt := time.Duration(vI64())
 	vAssume(lt > 0)
-	ft := vFiveTuple()
+	ft := VFiveTuple()
 	c0 := vClock()
-	a, err := m.CreateAllocation(ft, &vPacketConn{name: "turn"}, proto.ProtoUDP, 0, lt, vStr("user"), "realm", proto.RequestedFamilyIPv4)
+	a, err := m.CreateAllocation(ft, &VPacketConn{Name: "turn"}, proto.ProtoUDP, 0, lt, vStr("user"), "realm", proto.RequestedFamilyIPv4)
 	vAssert(err == nil, "C06.create_succeeds")
 	vAssume(err == nil)
 	vAssert(vMgrLockFree(m), "C18.lock_released_after_create")
 	vAssert(m.GetAllocation(ft) == a, "C06.allocation_exists_after_create")
 	vAssert(vAnd(vTimerArmed(a.lifetimeTimer), vTimerDur(a.lifetimeTimer) == lt), "C06.timer_armed_with_granted_lifetime")
 	vAssert(vTimerDeadline(a.lifetimeTimer) == c0+int64(lt), "C06.expiry_is_create_plus_lifetime")
-	vAssert(env.ev.allocCreated == 1, "C15.one_created_event")
+	vAssert(env.Ev.AllocCreated == 1, "C15.one_created_event")
 	vAssert(vSpawnCount() == 1, "C15.one_relay_goroutine")
 	// duplicate 5-tuple
-	_, err2 := m.CreateAllocation(&FiveTuple{SrcAddr: ft.SrcAddr, DstAddr: ft.DstAddr, Protocol: UDP}, &vPacketConn{name: "turn"}, proto.ProtoUDP, 0, lt, vStr("other"), "realm", proto.RequestedFamilyIPv4)
+	_, err2 := m.CreateAllocation(&FiveTuple{SrcAddr: ft.SrcAddr, DstAddr: ft.DstAddr, Protocol: UDP}, &VPacketConn{Name: "turn"}, proto.ProtoUDP, 0, lt, vStr("other"), "realm", proto.RequestedFamilyIPv4)
 	vAssert(err2 != nil, "C04.duplicate_five_tuple_rejected")
 	vAssert(m.AllocationCount() == 1, "C04.at_most_one_allocation_per_five_tuple")
 	vAssert(m.GetAllocation(ft) == a, "C04.duplicate_create_leaves_original")
-	vAssert(len(env.relays) == 1, "C15.rejected_create_opens_no_socket")
-	log := &vLogger{}
-	a.AddPermission(NewPermission(vUDPAddr4(), log, 300*time.Second))
-	a.AddPermission(NewPermission(vUDPAddr4(), log, 300*time.Second))
+	vAssert(len(env.Relays) == 1, "C15.rejected_create_opens_no_socket")
+	log := &VLogger{}
+	a.AddPermission(NewPermission(VUDPAddr4(), log, 300*time.Second))
+	a.AddPermission(NewPermission(VUDPAddr4(), log, 300*time.Second))
 	n := proto.ChannelNumber(vU16())
 	vAssume(vInRange(n))
-	e3 := a.AddChannelBind(NewChannelBind(n, vUDPAddr4(), log), 600*time.Second, 300*time.Second)
+	e3 := a.AddChannelBind(NewChannelBind(n, VUDPAddr4(), log), 600*time.Second, 300*time.Second)
 	vAssume(e3 == nil)
 	nPerm, nChan := len(a.permissions), len(a.channelBindings)
-	vAssert(env.ev.permCreated == nPerm, "C15.permission_created_events_match_table")
-	vAssert(env.ev.chanCreated == nChan, "C15.channel_created_events_match_table")
+	vAssert(env.Ev.PermCreated == nPerm, "C15.permission_created_events_match_table")
+	vAssert(env.Ev.ChanCreated == nChan, "C15.channel_created_events_match_table")
 	// refresh re-arms the same timer with the full new lifetime from now
 	vAdvance(vI64())
 	lt2 := time.Duration(vI64())
@@ -163,18 +163,18 @@ func VerifHarness_C06_create_expire() {
 	vAssert(vMgrLockFree(m), "C18.lock_released_after_delete")
 	vAssert(m.GetAllocation(ft) == nil, "C06.allocation_gone_after_expiry")
 	vAssert(m.AllocationCount() == 0, "C15.count_matches_live_allocations")
-	vAssert(env.relays[0].closed == 1, "C15.relay_socket_closed_exactly_once")
+	vAssert(env.Relays[0].Closed == 1, "C15.relay_socket_closed_exactly_once")
 	vAssert(len(a.permissions) == 0, "C06.permissions_gone_with_allocation")
 	vAssert(len(a.channelBindings) == 0, "C06.channels_gone_with_allocation")
 	vAssert(vArmedTimers() == 0, "C15.all_timers_stopped")
-	vAssert(env.ev.allocDeleted == 1, "C15.one_deleted_event")
-	vAssert(env.ev.permDeleted == nPerm, "C15.permission_events_pair_up")
-	vAssert(env.ev.chanDeleted == nChan, "C15.channel_events_pair_up")
+	vAssert(env.Ev.AllocDeleted == 1, "C15.one_deleted_event")
+	vAssert(env.Ev.PermDeleted == nPerm, "C15.permission_events_pair_up")
+	vAssert(env.Ev.ChanDeleted == nChan, "C15.channel_events_pair_up")
 	// the relay goroutine then sees the closed socket and deletes again: idempotent
 	m.DeleteAllocation(ft)
 	vFire(a.lifetimeTimer)
-	vAssert(env.relays[0].closed == 1, "C15.second_delete_releases_nothing_again")
-	vAssert(env.ev.allocDeleted == 1, "C15.second_delete_emits_no_event")
-	vAssert(env.ev.permDeleted == nPerm, "C15.second_delete_no_permission_event")
+	vAssert(env.Relays[0].Closed == 1, "C15.second_delete_releases_nothing_again")
+	vAssert(env.Ev.AllocDeleted == 1, "C15.second_delete_emits_no_event")
+	vAssert(env.Ev.PermDeleted == nPerm, "C15.second_delete_no_permission_event")
 	vReach("end")
 }
